@@ -524,4 +524,156 @@ theorem rcptOrder_of_good (s : AScript) (o : Obs) (h : GoodO s o) : rcptOrder s 
   · simp [m1, ← e1, e2, e3]
   · simp [m1, ← e1, e2, b1, b2, b3]
 
+/-! ### `smtpcode()`: the code and the framing -/
+
+theorem dig_digit (a : Byte) (h : isDigit a = true) : (dig a).toNat = a.toNat - 48 := by
+  unfold dig
+  simp [isDigit] at h
+  have h1 : (48 : UInt64) ≤ a.toUInt64 := by
+    rw [UInt64.le_iff_toNat_le]; simp; exact UInt8.le_iff_toNat_le.mp h.1
+  rw [UInt64.toNat_sub_of_le _ _ h1]; simp
+
+/-- **the code of a reply that starts with three digits is their decimal value** -/
+theorem codeNat_decimal (l : Bytes) (n : Nat) (h : decCode l = some n) : codeNat l = n := by
+  match l, h with
+  | a :: b :: c :: r, h =>
+    unfold decCode at h
+    by_cases hd : (isDigit a && isDigit b && isDigit c) = true
+    · simp only [hd, if_true, Option.some.injEq] at h
+      simp only [Bool.and_eq_true] at hd
+      obtain ⟨⟨ha, hb⟩, hc⟩ := hd
+      have la : a.toNat ≤ 57 := by simp [isDigit] at ha; exact UInt8.le_iff_toNat_le.mp ha.2
+      have lb : b.toNat ≤ 57 := by simp [isDigit] at hb; exact UInt8.le_iff_toNat_le.mp hb.2
+      have lc : c.toNat ≤ 57 := by simp [isDigit] at hc; exact UInt8.le_iff_toNat_le.mp hc.2
+      unfold codeNat codeOf
+      simp only [UInt64.toNat_add, UInt64.toNat_mul, dig_digit a ha, dig_digit b hb, dig_digit c hc]
+      rw [← h]
+      simp
+      omega
+    · simp [hd] at h
+
+/-- a well-formed reply line: at least three bytes, then anything, then LF; no LF inside -/
+def WfLine (l : Bytes) : Prop := ∃ x, l = x ++ [LF] ∧ LF ∉ x ∧ 3 ≤ x.length
+
+theorem frames_nolf (t : Bytes) : ∀ (st : RemoteSmtp.CSt) (cur : Bytes), LF ∉ t → frames st cur t = [] := by
+  induction t with
+  | nil => intro st cur _; simp [frames]
+  | cons c t ih =>
+    intro st cur h
+    have hc : c ≠ LF := fun e => h (by simp [e])
+    have ht : LF ∉ t := fun e => h (by simp [e])
+    cases st with
+    | sep => by_cases hd : c = DASH <;> simp [frames, cnext, hc, hd, ih _ _ ht]
+    | _ => simp [frames, cnext, hc, ih _ _ ht]
+
+theorem frames_cont_skip (y : Bytes) : ∀ (cur rest : Bytes), LF ∉ y →
+    frames .cont cur (y ++ LF :: rest) = frames .c1 (LF :: (y.reverse ++ cur)) rest := by
+  induction y with
+  | nil => intro cur rest _; simp [frames, cnext]
+  | cons c y ih =>
+    intro cur rest h
+    have hc : c ≠ LF := fun e => h (by simp [e])
+    have hy : LF ∉ y := fun e => h (by simp [e])
+    simp [frames, cnext, hc, ih _ _ hy]
+
+theorem frames_tail_skip (y : Bytes) : ∀ (cur rest : Bytes), LF ∉ y →
+    frames .tail cur (y ++ LF :: rest) = (LF :: (y.reverse ++ cur)).reverse :: frames .d1 [] rest := by
+  induction y with
+  | nil => intro cur rest _; simp [frames, cnext]
+  | cons c y ih =>
+    intro cur rest h
+    have hc : c ≠ LF := fun e => h (by simp [e])
+    have hy : LF ∉ y := fun e => h (by simp [e])
+    simp [frames, cnext, hc, ih _ _ hy]
+
+/-- one well-formed line, read at the start of a reply (`d1`) or after a `-` line (`c1`) -/
+theorem frames_line (l : Bytes) (hl : WfLine l) (st : RemoteSmtp.CSt) (hst : st = .d1 ∨ st = .c1) (cur rest : Bytes) :
+    frames st cur (l ++ rest) =
+      if isCont l then frames .c1 (l.reverse ++ cur) rest else (cur.reverse ++ l) :: frames .d1 [] rest := by
+  obtain ⟨x, rfl, hx, hlen⟩ := hl
+  match x, hx, hlen with
+  | a :: b :: c :: y, hx, _ =>
+    have ha : a ≠ LF := fun e => hx (by simp [e])
+    have hb : b ≠ LF := fun e => hx (by simp [e])
+    have hc : c ≠ LF := fun e => hx (by simp [e])
+    have hy : LF ∉ y := fun e => hx (by simp [e])
+    have h3 : frames st cur ((a :: b :: c :: y ++ [LF]) ++ rest) = frames .sep (c :: b :: a :: cur) (y ++ LF :: rest) := by
+      rcases hst with h | h <;> subst h <;> simp [frames, cnext]
+    rw [h3]
+    cases y with
+    | nil =>
+      simp [frames, cnext, isCont, DASH, LF]
+    | cons d y' =>
+      have hd : d ≠ LF := fun e => hy (by simp [e])
+      have hy' : LF ∉ y' := fun e => hy (by simp [e])
+      by_cases hD : d = DASH
+      · subst hD
+        simp [frames, cnext, isCont, frames_cont_skip y' _ _ hy']
+      · simp [frames, cnext, isCont, hD, hd, frames_tail_skip y' _ _ hy']
+
+/-- **multi-line reply parsing**: on a stream of well-formed lines (followed by an unterminated rest)
+`smtpcode()` delimits exactly the replies of the line-based reading: a run of lines with `-` as their
+4th byte plus the first line without -/
+theorem frames_eq_groupReplies (ls : List Bytes) (t : Bytes) (hls : ∀ l ∈ ls, WfLine l) (ht : LF ∉ t) :
+    ∀ (st : RemoteSmtp.CSt) (cur : Bytes), (st = .d1 ∨ st = .c1) →
+      frames st cur (ls.flatten ++ t) = groupReplies cur.reverse ls := by
+  induction ls with
+  | nil => intro st cur _; simp [groupReplies, frames_nolf t st cur ht]
+  | cons l ls ih =>
+    intro st cur hst
+    have hl := hls l (by simp)
+    have hls' : ∀ l' ∈ ls, WfLine l' := fun l' h' => hls l' (by simp [h'])
+    rw [List.flatten_cons, List.append_assoc, frames_line l hl st hst]
+    have hlen : ¬ l.length < 4 := by
+      obtain ⟨x, rfl, _, h3⟩ := hl; simp; omega
+    simp only [groupReplies, hlen, if_false]
+    by_cases hc : isCont l = true
+    · simp only [hc, if_true]
+      rw [ih hls' .c1 _ (Or.inr rfl)]; simp
+    · simp only [hc, if_false, Bool.false_eq_true]
+      rw [ih hls' .d1 [] (Or.inl rfl)]; simp
+
+theorem splitLines_spec (s : Bytes) : ∀ cur : Bytes, LF ∉ cur →
+    ∃ t, LF ∉ t ∧ cur.reverse ++ s = (splitLines cur s).flatten ++ t ∧
+      ∀ l ∈ splitLines cur s, ∃ x, l = x ++ [LF] ∧ LF ∉ x := by
+  induction s with
+  | nil => intro cur h; exact ⟨cur.reverse, by simpa using h, by simp [splitLines], by simp [splitLines]⟩
+  | cons c r ih =>
+    intro cur h
+    by_cases hc : c = LF
+    · subst hc
+      obtain ⟨t, t1, t2, t3⟩ := ih [] (by simp)
+      refine ⟨t, t1, ?_, ?_⟩
+      · simp only [splitLines, if_true, List.flatten_cons, List.reverse_cons]
+        simp only [List.reverse_nil, List.nil_append] at t2
+        rw [List.append_assoc, List.append_assoc, ← t2]; simp
+      · intro l hl
+        simp only [splitLines, if_true, List.mem_cons] at hl
+        rcases hl with hl | hl
+        · exact ⟨cur.reverse, by simp [hl], by simpa using h⟩
+        · exact t3 l hl
+    · obtain ⟨t, t1, t2, t3⟩ := ih (c :: cur) (by simp [h, Ne.symm hc])
+      refine ⟨t, t1, ?_, ?_⟩
+      · simp only [splitLines, hc, if_false]
+        rw [← t2]; simp
+      · intro l hl
+        simp only [splitLines, hc, if_false] at hl
+        exact t3 l hl
+
+/-- **multi-line reply parsing, on streams**: if every complete line of the server's stream has at
+least three bytes before its LF, `smtpcode()` delimits exactly the replies of the line-based reading -/
+theorem frames_eq_specFrames (s : Bytes) (h : wfLines s = true) : frames .d1 [] s = specFrames s := by
+  obtain ⟨t, t1, t2, t3⟩ := splitLines_spec s [] (by simp)
+  simp only [List.reverse_nil, List.nil_append] at t2
+  have hw : ∀ l ∈ splitLines [] s, WfLine l := by
+    intro l hl
+    obtain ⟨x, hx1, hx2⟩ := t3 l hl
+    have : l.length ≥ 4 := by
+      have := (List.all_eq_true.mp h) l hl
+      simpa using this
+    exact ⟨x, hx1, hx2, by rw [hx1] at this; simp at this; omega⟩
+  have := frames_eq_groupReplies (splitLines [] s) t hw t1 .d1 [] (Or.inl rfl)
+  rw [← t2] at this
+  simpa [specFrames] using this
+
 end Nq.Lemmas.RemoteSmtp
